@@ -24,7 +24,7 @@ func init() {
 			}
 			return 1600
 		},
-		Rule: "case = collection of 1..40 trees on 4..40 taxa (bootstrap-like perturbations of one tree: random NNIs, contractions, rooted and unrooted presentations mixed; completely unresolved trees; negative lengths; one case in twenty with 255..1000 trees on 4..9 taxa) x cutoff (dyadic values with n chosen so that count = cutoff*n occurs exactly; arbitrary cutoffs with near-boundary splits excluded); naive frequency table as oracle; order/rooting/rotation invariance; rejection clauses; non-trivial = the frequency table has a split with 0 < count < n and the consensus keeps an inner branch; distinct by the collection text",
+		Rule: "case = collection of 1..40 trees on 4..40 taxa (bootstrap-like perturbations of one tree: random NNIs, contractions, rooted and unrooted presentations mixed; completely unresolved trees; negative lengths; one case in twenty with 255..1000 trees on 4..9 taxa) x cutoff (dyadic values with n chosen so that count = cutoff*n occurs exactly; arbitrary cutoffs with near-boundary splits excluded); naive frequency table as oracle; order/rooting/rotation invariance; rejection clauses (library; through the command also thresholds written 50, 70, 100, 1e2); non-trivial = the frequency table has a split with 0 < count < n and the consensus keeps an inner branch; distinct by the collection text",
 		Assumptions: []string{
 			"all branch lengths present (the quantifier says 'with lengths'); mean lengths compared to 1e-9 relative, supports to 1e-12",
 			"for non-dyadic cutoffs a split with |count - cutoff*n| < 1e-6 is not asserted (rounding question)",
